@@ -47,6 +47,15 @@ def _canon_generic(ty):
     return re.sub(r"(?<![\w:'])([A-Za-z_]\w*)(?![\w:])", lambda m: m.group(1) if m.group(1) in _PRIMS else "$", ty)
 
 
+MOVED = {}      # path on the analysed tree -> pinned path, for functions that moved to another module (filled by new_helpers)
+
+
+def _strip_paths(ty):
+    """type string with module paths removed (`react::commands::SystemCommand` -> `SystemCommand`): a moved type changes the
+    path of every signature that mentions it"""
+    return re.sub(r"(?:[A-Za-z_]\w*::)+", "", ty)
+
+
 def new_helpers(prog, vocab):
     out = {}
     # a function that is not in the vocabulary while a vocabulary function of the same module / impl has disappeared is a
@@ -60,17 +69,41 @@ def new_helpers(prog, vocab):
         if v not in present:
             missing[v.rsplit("::", 1)[0]] = missing.get(v.rsplit("::", 1)[0], 0) + 1
             missing_sigs.setdefault(v.rsplit("::", 1)[0], []).append([_canon_generic(x) for x in sigs[v]] if v in sigs else None)
+    # a function that *moved* to another module keeps its name (and the name of its impl type) and its signature while the
+    # pinned path has vanished: it is the same function at a new address, not a new helper
+    def _tailkey(path_):
+        segs = path_.split("::")
+        if len(segs) >= 2 and segs[-2][:1].isupper():
+            return "::".join(segs[-2:])
+        return segs[-1]
+    moved_pool = {}
+    for v in vocab:
+        if v not in present and not v.startswith("<") and v in sigs:
+            moved_pool.setdefault(_tailkey(v), []).append((v, [_canon_generic(x) for x in sigs[v]]))
     for b in prog.bodies:
         if b.kind not in ("fn", "assoc_fn"):
             continue
+        sp_ = strip_generics(b.path)
+        if sp_ not in vocab and not sp_.startswith("<") and _tailkey(sp_) in moved_pool:
+            cs_ = [_canon_generic(b.local_ty(i)) for i in range(1, b.arg_count + 1)]
+            hit_ = next((m_ for m_ in moved_pool[_tailkey(sp_)] if [_strip_paths(x) for x in m_[1]] == [_strip_paths(x) for x in cs_]), None)
+            if hit_ is not None:
+                moved_pool[_tailkey(sp_)].remove(hit_)
+                pre_old = hit_[0].rsplit("::", 1)[0]
+                if missing.get(pre_old, 0) > 0:
+                    missing[pre_old] -= 1
+                    if hit_[1] in missing_sigs.get(pre_old, []):
+                        missing_sigs[pre_old].remove(hit_[1])
+                MOVED[sp_] = hit_[0]
+                continue
         if strip_generics(b.path) in vocab:
             # a pinned private helper that was *generalised* (a concrete parameter became `impl Trait` / a type parameter):
             # what it iterates or operates on is now decided by its callers, so the view inlines it there
             ps = sigs.get(strip_generics(b.path))
             cs = [b.local_ty(i) for i in range(1, b.arg_count + 1)]
             if ps and len(ps) == len(cs) and b.raw.get("reachable") is not True and not b.raw.get("impl_trait") and b.n <= 120 \
-                    and any(c != p and _canon_generic(c) != _canon_generic(p) and (c.startswith("impl ") or c in (b.raw.get("generics") or []))
-                            for c, p in zip(cs, ps)) \
+                    and (sum(1 for c in cs if c.startswith("impl ") or c in (b.raw.get("generics") or []))
+                         > sum(1 for p_ in ps if p_.startswith("impl ") or re.fullmatch(r"[A-Z]\w*", p_))) \
                     and not any(fr is not None and prog.resolve_local(fr) is b for _, _, fr in b.iter_calls()) \
                     and not prog.fn_value_uses(lambda n, p_=b.path: n == p_):
                 out[b.path] = b
@@ -934,6 +967,58 @@ def unbundle_params(raws, facts, sigs):
     return done
 
 
+def permute_params(raws, facts, sigs):
+    """Parameter re-ordering (a semantics-preserving normalisation): a function of the pinned tree whose parameters are the
+    pinned ones in another order (all of distinct types; `&T` and `T` count as the same parameter) gets its pinned parameter
+    order back in the view: the parameter locals are renumbered and every direct call site passes its arguments in the pinned
+    order. Rules that name a parameter by position keep reading the parameter they mean. Returns the functions rewritten."""
+    def norm(t):
+        t = re.sub(r"^&(?:'\w+ )?(?:mut )?", "", t)
+        if t.startswith("impl ") or re.fullmatch(r"[A-Z]\w*", t):
+            return "$generic"
+        return _strip_paths(_canon_generic(t))
+    done = []
+    for path, raw in list(raws.items()):
+        if raw.get("kind") not in ("fn", "assoc_fn"):
+            continue
+        ps = sigs.get(strip_generics(path)) or sigs.get(MOVED.get(strip_generics(path), ""))
+        n = raw["arg_count"]
+        if not ps or len(ps) != n or n < 2:
+            continue
+        cs = [norm(raw["locals"][i]["ty"]) for i in range(1, n + 1)]
+        pn = [norm(x) for x in ps]
+        if cs == pn or sorted(cs) != sorted(pn) or len(set(cs)) != n:
+            continue
+        # not used as a value (fn pointer)
+        used_as_value = False
+        for r2 in raws.values():
+            for blk in r2["blocks"]:
+                for st in blk["stmts"]:
+                    if st["k"] == "assign":
+                        for o in mir.rv_operands(st["rv"]):
+                            fr = op_fn(o)
+                            if fr and strip_generics(fr.get("resolved") or fr["path"]) == strip_generics(path):
+                                used_as_value = True
+        if used_as_value:
+            continue
+        cur_of_pinned = [cs.index(t) for t in pn]          # pinned position j holds current parameter cur_of_pinned[j]
+        new_of_cur = {ci + 1: j + 1 for j, ci in enumerate(cur_of_pinned)}
+        _remap_body(raw, lambda l, m_=new_of_cur: m_.get(l, l))
+        old = raw["locals"]
+        raw["locals"] = [old[0]] + [old[ci + 1] for ci in cur_of_pinned] + old[n + 1:]
+        for r2 in raws.values():
+            for blk in r2["blocks"]:
+                t = blk["term"]
+                if t["k"] != "call":
+                    continue
+                fr = op_fn(t["func"])
+                if not fr or strip_generics(fr.get("resolved") or fr["path"]) != strip_generics(path) or len(t["args"]) != n:
+                    continue
+                t["args"] = [t["args"][ci] for ci in cur_of_pinned]
+        done.append(strip_generics(path) + " (parameters re-ordered)")
+    return done
+
+
 def _split_args(s):
     """top-level comma split of the text between the outer < > of a type"""
     out, depth, cur = [], 0, ""
@@ -1061,6 +1146,149 @@ def erase_newtypes(raws, facts, vocab):
     return adts2, sorted(nts)
 
 
+def flatten_substructs(raws, facts, vocab):
+    """A crate-private struct with named fields that is new in this tree (no pinned function mentions it) and is used as a field
+    of another crate struct is a *grouping* of that struct's state. In the view the grouping is transparent:
+      * a reference to the group (`let c = &mut self.current; (*c).reacting = true` - typically the `self` of the group's own
+        methods after they were inlined) is folded into its uses (`self.current.reacting = true`),
+      * the projection `outer.group.field` becomes one field `group.field` of the outer struct (ADT table, places, aggregates).
+    Rules that find a state field by its role (the flag `start()` sets and `end()` clears, the sender / receiver pair, the
+    pending list) then find it wherever it was grouped. Semantics preserved: pure re-addressing. Returns (adts, groups)."""
+    adts = {a["path"]: a for a in facts.get("adts", [])}
+    groups = {}
+    for a in facts.get("adts", []):
+        if a.get("kind") != "Struct" or a.get("reachable") is True or len(a.get("variants", [])) != 1:
+            continue
+        fs = a["variants"][0]["fields"]
+        if not fs or any(f["name"].isdigit() for f in fs) or any(a["path"] in v for v in vocab):
+            continue
+        groups[a["path"]] = a
+    # only groups that are the type of a field of another crate struct
+    used = {}
+    for a in facts.get("adts", []):
+        for v in a.get("variants", []):
+            for i, f in enumerate(v["fields"]):
+                if f["ty"] in groups and a["path"] not in groups:
+                    used.setdefault(f["ty"], []).append((a["path"], i, f["name"]))
+    groups = {g: a for g, a in groups.items() if g in used}
+    if not groups:
+        return facts.get("adts", []), []
+
+    def ends_in_group(pl):
+        last = pl["p"][-1] if pl["p"] else None
+        return isinstance(last, dict) and "f" in last and last.get("ty") in groups and all(e == "deref" or (isinstance(e, dict) and "f" in e) for e in pl["p"])
+
+    for raw in raws.values():
+        # 1. fold references to a group into their uses
+        defs = {}
+        for blk in raw["blocks"]:
+            for st in blk["stmts"]:
+                if st["k"] == "assign" and not st["place"]["p"]:
+                    defs.setdefault(st["place"]["l"], []).append(st["rv"])
+            t = blk["term"]
+            if t["k"] == "call" and not t["dest"]["p"]:
+                defs.setdefault(t["dest"]["l"], []).append({"call": True})
+        target = {}
+        changed = True
+        while changed:
+            changed = False
+            for l, ds in defs.items():
+                if l in target or len(ds) != 1 or l <= raw["arg_count"]:
+                    continue
+                rv = ds[0]
+                q = rv.get("ref")
+                if q is not None and ends_in_group(q) and (q["l"] <= raw["arg_count"] or len(defs.get(q["l"], [])) <= 1):
+                    target[l] = q
+                    changed = True
+                elif q is not None and q["p"] == ["deref"] and q["l"] in target:      # reborrow `&mut *c`
+                    target[l] = target[q["l"]]
+                    changed = True
+                elif "use" in rv:
+                    sp = mir.op_place(rv["use"])
+                    if sp is not None and not sp["p"] and sp["l"] in target:
+                        target[l] = target[sp["l"]]
+                        changed = True
+
+        def fold(pl):
+            if pl["l"] in target and pl["p"] and pl["p"][0] == "deref":
+                q = target[pl["l"]]
+                pl["l"] = q["l"]
+                pl["p"] = copy.deepcopy(q["p"]) + pl["p"][1:]
+            # 2. merge `outer.group` + `group.field`
+            newp = []
+            for e in pl["p"]:
+                prev = newp[-1] if newp else None
+                if isinstance(e, dict) and "f" in e and e.get("adt") in groups and isinstance(prev, dict) and "f" in prev and prev.get("ty") == e.get("adt"):
+                    newp[-1] = {"f": 1000 * (prev["f"] + 1) + e["f"], "ty": e.get("ty"), "name": "%s.%s" % (prev.get("name"), e.get("name")), "adt": prev.get("adt")}
+                else:
+                    newp.append(e)
+            pl["p"] = newp
+
+        def walk(x):
+            if isinstance(x, dict):
+                if "l" in x and "p" in x and isinstance(x["p"], list) and isinstance(x["l"], int):
+                    fold(x)
+                    return
+                for v in x.values():
+                    walk(v)
+            elif isinstance(x, list):
+                for v in x:
+                    walk(v)
+        for blk in raw["blocks"]:
+            walk(blk)
+        # 3. aggregates of the outer struct: splice the group's fields when the group value is built here
+        aggdef = {}
+        for blk in raw["blocks"]:
+            for st in blk["stmts"]:
+                if st["k"] == "assign" and not st["place"]["p"] and "agg" in st.get("rv", {}) and st["rv"]["agg"].get("adt") in groups:
+                    aggdef.setdefault(st["place"]["l"], []).append(st["rv"]["agg"])
+
+        def resolve(op, depth=0):
+            pl = mir.op_place(op)
+            if pl is None or pl["p"] or depth > 4:
+                return None
+            if pl["l"] in aggdef and len(aggdef[pl["l"]]) == 1 and len(defs.get(pl["l"], [])) == 1:
+                return aggdef[pl["l"]][0]
+            ds = defs.get(pl["l"], [])
+            if len(ds) == 1 and "use" in ds[0]:
+                return resolve(ds[0]["use"], depth + 1)
+            return None
+        for blk in raw["blocks"]:
+            for st in blk["stmts"]:
+                ag = st.get("rv", {}).get("agg") if st["k"] == "assign" else None
+                if not ag or ag.get("kind") != "adt" or ag.get("adt") not in adts or ag.get("adt") in groups:
+                    continue
+                outer = adts[ag["adt"]]
+                ftys = {f["name"]: f["ty"] for v in outer.get("variants", []) for f in v["fields"]}
+                nf, no = [], []
+                for fname, op in zip(ag.get("fields", []), ag["ops"]):
+                    inner = resolve(op) if ftys.get(fname) in groups else None
+                    if inner is not None:
+                        for f2, o2 in zip(inner.get("fields", []), inner["ops"]):
+                            nf.append("%s.%s" % (fname, f2))
+                            no.append(o2)
+                    else:
+                        nf.append(fname)
+                        no.append(op)
+                ag["fields"], ag["ops"] = nf, no
+    adts2 = []
+    for a in facts.get("adts", []):
+        if a["path"] in groups:
+            continue
+        a = copy.deepcopy(a)
+        for v in a.get("variants", []):
+            nf = []
+            for f in v["fields"]:
+                if f["ty"] in groups:
+                    for f2 in groups[f["ty"]]["variants"][0]["fields"]:
+                        nf.append({"name": "%s.%s" % (f["name"], f2["name"]), "ty": f2["ty"], "vis": f.get("vis")})
+                else:
+                    nf.append(f)
+            v["fields"] = nf
+        adts2.append(a)
+    return adts2, sorted(groups)
+
+
 def adts_key(adts, ty):
     return ty
 
@@ -1092,11 +1320,13 @@ def inlined_facts(facts, vocab=None):
         info["desugar_combinators_error"] = repr(e)
     if not helpers and not info["arm_split"] and not info["desugared_extend"]:
         sigs = load_sigs()
-        info["unbundled"] = unbundle_params(raws, facts, sigs) if sigs else []
+        info["unbundled"] = (unbundle_params(raws, facts, sigs) + permute_params(raws, facts, sigs)) if sigs else []
         if not info["unbundled"]:
             return None, info
         return dict(facts, bodies=list(raws.values())), info
     if not helpers:
+        sigs = load_sigs()
+        info["unbundled"] = (unbundle_params(raws, facts, sigs) + permute_params(raws, facts, sigs)) if sigs else []
         return dict(facts, bodies=list(raws.values())), info
     for depth in range(MAX_DEPTH):
         changed = False
@@ -1123,7 +1353,7 @@ def inlined_facts(facts, vocab=None):
         if not changed:
             break
     sigs = load_sigs()
-    info["unbundled"] = unbundle_params(raws, facts, sigs) if sigs else []
+    info["unbundled"] = (unbundle_params(raws, facts, sigs) + permute_params(raws, facts, sigs)) if sigs else []
     info["devirtualised"] = devirtualise_closure_calls(raws, facts)
     # separate the paths that the helpers' several returns merged (only in bodies that received an inlining)
     for path in list(raws):
@@ -1163,7 +1393,12 @@ def inlined_facts(facts, vocab=None):
                     raw["parent"] = builder.get(path)
                 raw["root"] = raws.get(owner, {}).get("root", owner) if raws.get(owner, {}).get("kind") == "closure" else owner
     adts2, info["erased_newtypes"] = erase_newtypes(raws, facts, vocab)
-    facts2 = dict(facts, bodies=list(raws.values()), adts=adts2)
+    try:
+        adts3, info["flattened_groups"] = flatten_substructs(raws, dict(facts, adts=adts2), vocab)
+    except Exception as e:
+        adts3, info["flattened_groups"] = adts2, []
+        info["flatten_error"] = repr(e)
+    facts2 = dict(facts, bodies=list(raws.values()), adts=adts3)
     return facts2, info
 
 
